@@ -611,21 +611,30 @@ def witness(e):
     return nonzero
 
 
-def summand(e):
-    """E linear in S(.) -> the per-element summand (coefficients must be free
-    of S)."""
+class NotASum(Unsupported):
+    """The expression is not a sum over elements (positive witness: the
+    offending term)."""
+
+
+def summand(e, elem=()):
+    """E linear in S(.) -> the per-element summand.  Coefficients must be
+    free of S and of the per-element atoms `elem`."""
     e = sp.expand(e)
     out = sp.Integer(0)
     for term in sp.Add.make_args(e):
         ss = [a for a in term.atoms(sp.Function) if a.func == S]
         if len(ss) != 1:
-            raise Unsupported('term not linear in the sum operator: %s'
-                              % str(term)[:80])
+            raise NotASum('term `%s` is not linear in the sum over '
+                          'elements' % str(term)[:80])
         s = ss[0]
         coeff = term / s
         if coeff.has(S):
-            raise Unsupported('term not linear in the sum operator: %s'
-                              % str(term)[:80])
+            raise NotASum('term `%s` is not linear in the sum over '
+                          'elements' % str(term)[:80])
+        bad = [a for a in elem if coeff.has(a)]
+        if bad:
+            raise NotASum('term `%s` multiplies a sum by %s, which varies '
+                          'per element' % (str(term)[:80], bad[0]))
         out += coeff * s.args[0]
     return out
 
